@@ -13,6 +13,7 @@ pub fn harnesses() -> Vec<Harness> {
         Harness { name: "c18_sync_flush", property: "C18", f: c18_sync_flush, about: "merge with the on-disk cache loses nothing known to either side; save then load returns the same peers and addresses; limits after clean-up" },
         Harness { name: "c18_untrusted_file", property: "C18", f: c18_untrusted_file, about: "a well-formed cache file whose timestamps and counters are arbitrary (untrusted) values loads or is rejected without a panic; what is loaded is clean" },
         Harness { name: "c18_concurrent_flush", property: "C18", f: c18_concurrent_flush, about: "two processes flush to one cache file; the second one's whole flush lands between any two file-system operations of the first; a reader loads the file at every moment" },
+        Harness { name: "c18_load_bulk_file", property: "C18", f: c18_load_bulk_file, about: "a cache file holding more peers than the limit, with arbitrary (possibly equal) last-seen instants: what is loaded respects the limit and keeps the most recently seen peers" },
         Harness { name: "c18_corrupt", property: "C18", f: c18_corrupt, about: "corrupt or foreign cache file is ignored without a panic and replaced by a loadable file" },
     ]
 }
@@ -332,6 +333,51 @@ fn c18_corrupt() {
     check_bool("corrupt:replaced_by_a_loadable_file", loaded.is_ok());
     if let Ok(d) = loaded {
         check_bool("corrupt:own_knowledge_survives", all_pairs(&d) == before);
+    }
+}
+
+fn c18_load_bulk_file() {
+    let max_peers = 1 + choice(2);
+    let store = setup(max_peers, 2);
+    let now = now_secs();
+    // three peers, one reliable address each; the instants are unrelated to each other (ties included),
+    // not in the future and not expired, so that only the peer limit can remove anything
+    let mut data = CacheData::default();
+    let mut seen: Vec<SymU<64>> = vec![];
+    for i in 1..=3u8 {
+        let t = SymU::<64>::fresh(&format!("peer{i}_last_seen_s"));
+        symrt::assume(t.sle(now).0);
+        symrt::assume(now.wrapping_sub(t).slt(expiry()).0);
+        let mut a = BootstrapAddr::new(quic(i, 1));
+        a.last_seen = crate::shim::SystemTime(t);
+        a.success_count = 1;
+        data.insert(pid(i), a);
+        seen.push(t);
+    }
+    let text = serde_json::to_string(&data).expect("serialise");
+    symrt::env::fs::write("/cache/bootstrap_cache.json", text.as_bytes()).unwrap();
+    let r = BootstrapCacheStore::load_cache_data(store.config());
+    cover("bulk_loaded");
+    match r {
+        Ok(d) => {
+            note(format!("max_peers={max_peers} loaded={}", d.peers.len()));
+            check_bool("bulk:at_most_max_peers_after_load", d.peers.len() <= max_peers);
+            check_bool("bulk:limit_is_the_only_reason_to_drop", d.peers.len() >= max_peers.min(3));
+            // the peers that were dropped were not seen more recently than any peer that was kept
+            for i in 1..=3u8 {
+                if d.peers.contains_key(&pid(i)) {
+                    continue;
+                }
+                for k in 1..=3u8 {
+                    if d.peers.contains_key(&pid(k)) {
+                        check("bulk:dropped_peer_not_more_recent_than_a_kept_one", seen[i as usize - 1].sle(seen[k as usize - 1]).0);
+                    }
+                }
+            }
+        }
+        Err(_) => {
+            check_bool("bulk:well_formed_file_loads", false);
+        }
     }
 }
 
